@@ -375,6 +375,9 @@ func (its *jsonPrimitive) String() string {
 func (its *jsonPrimitive) createJSONTypeFromReflectValue(parent jsonType, rv reflect.Value, ts *model.Timestamp) jsonType {
 	kind := rv.Kind()
 	switch kind {
+	case reflect.Invalid: // null: a nil map entry or slice element, a nil pointer
+		its.common.L().Errorf("null value is not allowed")
+		return nil
 	case reflect.Struct:
 		toMap, err := utils.StructToMap(rv.Interface())
 		if err != nil {
